@@ -246,35 +246,56 @@ theorem ansiFormat_inert (tb : Tables) (pr : Char → Bool) (tmpl : Text) (args 
     run_template_inert tb {} segs hg hv]
 
 /-- `renderPercent`, keeping the literal / value structure (arguments already escaped) -/
-def fillPercent : List Text → List PItem → Except Err (List Seg)
+def fillPercent (pr : Char → Bool) : List Text → List PItem → Except Err (List Seg)
   | [], [] => .ok []
   | _ :: _, [] => .error .type
   | args, .lit t :: rest =>
-    match fillPercent args rest with
+    match fillPercent pr args rest with
     | .ok r => .ok (.lit t :: r)
     | .error e => .error e
+  | _, .typeErr :: _ => .error .type
+  | [], .badChar :: _ => .error .type
+  | _ :: _, .badChar :: _ => .error .value
+  | _, .incomplete :: _ => .error .value
   | [], .hole _ :: _ => .error .type
   | v :: args, .hole s :: rest =>
-    match fillPercent args rest with
-    | .ok r => .ok (.val (pfmtStr v s) :: r)
+    match convArg pr s.conv v with
     | .error e => .error e
+    | .ok t =>
+      match fillPercent pr args rest with
+      | .ok r => .ok (.val (pfmtStr t s) :: r)
+      | .error e => .error e
 
-theorem renderPercent_eq_fill (args : List Text) (items : List PItem) :
-    renderPercent args items = (fillPercent args items).map flat := by
+theorem renderPercent_eq_fill (pr : Char → Bool) (args : List Text) (items : List PItem) :
+    renderPercent pr args items = (fillPercent pr args items).map flat := by
   induction items generalizing args with
   | nil => cases args <;> simp [renderPercent, fillPercent, Except.map, flat]
   | cons it rest ih =>
     cases it with
     | lit t =>
-      cases args <;>
-      · simp only [renderPercent, fillPercent, ih]
-        split <;> simp_all [Except.map, bind, Except.bind, pure, Except.pure, flat]
+      have h1 : renderPercent pr args (.lit t :: rest) =
+          match renderPercent pr args rest with
+          | .ok r => .ok (t ++ r)
+          | .error e => .error e := by cases args <;> (simp only [renderPercent]; rfl)
+      have h2 : fillPercent pr args (.lit t :: rest) =
+          match fillPercent pr args rest with
+          | .ok r => .ok (.lit t :: r)
+          | .error e => .error e := by cases args <;> simp [fillPercent]
+      rw [h1, h2, ih]
+      cases fillPercent pr args rest <;> simp [Except.map, flat]
     | hole sp =>
       cases args with
       | nil => simp [renderPercent, fillPercent, Except.map]
       | cons v vs =>
         simp only [renderPercent, fillPercent, ih]
-        split <;> simp_all [Except.map, bind, Except.bind, pure, Except.pure, flat]
+        cases convArg pr sp.conv v with
+        | error e => simp [Except.map]
+        | ok t =>
+          simp only
+          cases fillPercent pr vs rest <;> simp [Except.map, flat]
+    | typeErr => cases args <;> simp [renderPercent, fillPercent, Except.map]
+    | badChar => cases args <;> simp [renderPercent, fillPercent, Except.map]
+    | incomplete => cases args <;> simp [renderPercent, fillPercent, Except.map]
 
 theorem inert_pfmtStr (v : Text) (sp : PSpec) (h : Inert v) : Inert (pfmtStr v sp) := by
   intro c hc
@@ -291,19 +312,136 @@ theorem inert_pfmtStr (v : Text) (sp : PSpec) (h : Inert v) : Inert (pfmtStr v s
       | exact htake _ c hc
       | (obtain ⟨_, rfl⟩ := hc; exact hsp)
 
-theorem fillPercent_valsInert (args : List Text) (items : List PItem) (segs : List Seg)
-    (ha : ∀ a ∈ args, Inert a) (h : fillPercent args items = .ok segs) : ValsInert segs := by
+/-! `repr` / `ascii` of a text without introducers has no introducer either (they only add quotes,
+    backslashes, letters and hexadecimal digits) -/
+
+def PlainCh (c : Char) : Prop := c ≠ ESC ∧ c ≠ CSI8 ∧ c ≠ SOH ∧ c ≠ STX
+
+instance (c : Char) : Decidable (PlainCh c) := inferInstanceAs (Decidable (c ≠ ESC ∧ c ≠ CSI8 ∧ c ≠ SOH ∧ c ≠ STX))
+
+theorem digitChar_plain_small : ∀ k, k < 16 → PlainCh (Nat.digitChar k) := by decide
+
+theorem digitChar_plain (k : Nat) : PlainCh (Nat.digitChar k) := by
+  by_cases h : k < 16
+  · exact digitChar_plain_small k h
+  · obtain ⟨m, rfl⟩ : ∃ m, k = m + 16 := ⟨k - 16, by omega⟩
+    simp [Nat.digitChar, PlainCh]; decide
+
+theorem toDigitsCore_plain (fuel n : Nat) (ds : List Char) (h : ∀ c ∈ ds, PlainCh c) :
+    ∀ c ∈ Nat.toDigitsCore 16 fuel n ds, PlainCh c := by
+  induction fuel generalizing n ds with
+  | zero => simpa [Nat.toDigitsCore] using h
+  | succ k ih =>
+    unfold Nat.toDigitsCore
+    have hd : ∀ c ∈ Nat.digitChar (n % 16) :: ds, PlainCh c := by
+      intro c hc; rw [List.mem_cons] at hc; rcases hc with rfl | hc
+      · exact digitChar_plain _
+      · exact h c hc
+    simp only
+    split
+    · exact hd
+    · exact ih _ _ hd
+
+theorem hexPad_plain (w n : Nat) : ∀ c ∈ hexPad w n, PlainCh c := by
+  intro c hc
+  simp only [hexPad, List.mem_append, List.mem_replicate] at hc
+  rcases hc with ⟨_, rfl⟩ | hc
+  · decide
+  · exact toDigitsCore_plain _ _ [] (by simp) c hc
+
+theorem hexEscape_plain (x : Char) : ∀ c ∈ hexEscape x, PlainCh c := by
+  intro c hc
+  unfold hexEscape at hc
+  split at hc
+  · simp only [List.mem_cons] at hc
+    rcases hc with rfl | rfl | hc
+    · decide
+    · decide
+    · exact hexPad_plain _ _ c hc
+  · split at hc
+    · simp only [List.mem_cons] at hc
+      rcases hc with rfl | rfl | hc
+      · decide
+      · decide
+      · exact hexPad_plain _ _ c hc
+    · simp only [List.mem_cons] at hc
+      rcases hc with rfl | rfl | hc
+      · decide
+      · decide
+      · exact hexPad_plain _ _ c hc
+
+theorem reprChar_plain (pr : Char → Bool) (q x : Char) (hq : PlainCh q) (hx : PlainCh x) :
+    ∀ c ∈ reprChar pr q x, PlainCh c := by
+  intro c hc
+  unfold reprChar at hc
+  have two : ∀ a b : Char, PlainCh a → PlainCh b → c ∈ [a, b] → PlainCh c := by
+    intro a b ha hb h; simp at h; rcases h with rfl | rfl <;> assumption
+  split at hc
+  · exact two _ _ (by decide) hx hc
+  · split at hc
+    · exact two _ _ (by decide) (by decide) hc
+    · split at hc
+      · exact two _ _ (by decide) (by decide) hc
+      · split at hc
+        · exact two _ _ (by decide) (by decide) hc
+        · split at hc
+          · exact hexEscape_plain x c hc
+          · split at hc
+            · simp at hc; subst hc; exact hx
+            · split at hc
+              · simp at hc; subst hc; exact hx
+              · exact hexEscape_plain x c hc
+
+theorem pyRepr_inert (pr : Char → Bool) (e : Text) (h : Inert e) : Inert (pyRepr pr e) := by
+  intro c hc
+  unfold pyRepr at hc
+  simp only at hc
+  generalize hq : (if (e.contains '\'' && !e.contains '"') = true then '"' else '\'') = q at hc
+  have hqp : PlainCh q := by
+    rw [← hq]; split <;> decide
+  simp only [List.mem_cons, List.mem_append, List.mem_flatMap, List.mem_singleton, List.not_mem_nil,
+    or_false] at hc
+  rcases hc with rfl | ⟨x, hx, hcx⟩ | rfl
+  · exact hqp
+  · exact reprChar_plain pr q x hqp (h x hx) c hcx
+  · exact hqp
+
+theorem asciiEscape_inert (t : Text) (h : Inert t) : Inert (asciiEscape t) := by
+  intro c hc
+  simp only [asciiEscape, List.mem_flatMap] at hc
+  obtain ⟨x, hx, hcx⟩ := hc
+  by_cases hlt : x.toNat < 0x80
+  · simp [hlt] at hcx; subst hcx; exact h c hx
+  · simp only [hlt, if_false] at hcx; exact hexEscape_plain x c hcx
+
+/-- whatever conversion the template asks for (`%s %r %a %c`), the text made of an escaped value
+    holds no introducer -/
+theorem convArg_inert (pr : Char → Bool) (cv : PConv) (e t : Text) (h : Inert e)
+    (hc : convArg pr cv e = .ok t) : Inert t := by
+  cases cv with
+  | s => simp [convArg] at hc; subst hc; exact h
+  | r => simp [convArg] at hc; subst hc; exact pyRepr_inert pr e h
+  | a => simp [convArg] at hc; subst hc; exact asciiEscape_inert _ (pyRepr_inert pr e h)
+  | c =>
+    simp only [convArg] at hc
+    split at hc
+    · simp at hc; subst hc; exact h
+    · simp at hc
+
+theorem fillPercent_valsInert (pr : Char → Bool) (args : List Text) (items : List PItem)
+    (segs : List Seg)
+    (ha : ∀ a ∈ args, Inert a) (h : fillPercent pr args items = .ok segs) : ValsInert segs := by
   induction items generalizing args segs with
   | nil => cases args <;> simp [fillPercent] at h; subst h; simp [ValsInert]
   | cons it rest ih =>
     cases it with
     | lit t =>
-      have : fillPercent args (.lit t :: rest) =
-          match fillPercent args rest with
+      have : fillPercent pr args (.lit t :: rest) =
+          match fillPercent pr args rest with
           | .ok r => .ok (.lit t :: r)
           | .error e => .error e := by cases args <;> simp [fillPercent]
       rw [this] at h
-      cases hr : fillPercent args rest with
+      cases hr : fillPercent pr args rest with
       | error e => simp [hr] at h
       | ok r => simp [hr] at h; subst h; simp [ValsInert]; exact ih _ _ ha hr
     | hole sp =>
@@ -311,25 +449,82 @@ theorem fillPercent_valsInert (args : List Text) (items : List PItem) (segs : Li
       | nil => simp [fillPercent] at h
       | cons v vs =>
         simp only [fillPercent] at h
-        cases hr : fillPercent vs rest with
-        | error e => simp [hr] at h
-        | ok r =>
-          simp [hr] at h; subst h
-          exact ⟨inert_pfmtStr v sp (ha v (by simp)),
-                 ih _ _ (fun a ha' => ha a (by simp [ha'])) hr⟩
+        cases hcv : convArg pr sp.conv v with
+        | error e => simp [hcv] at h
+        | ok t =>
+          simp only [hcv] at h
+          cases hr : fillPercent pr vs rest with
+          | error e => simp [hr] at h
+          | ok r =>
+            simp [hr] at h; subst h
+            exact ⟨inert_pfmtStr t sp (convArg_inert pr sp.conv v t (ha v (by simp)) hcv),
+                   ih _ _ (fun a ha' => ha a (by simp [ha'])) hr⟩
+    | typeErr => cases args <;> simp [fillPercent] at h
+    | badChar => cases args <;> simp [fillPercent] at h
+    | incomplete => cases args <;> simp [fillPercent] at h
 
-/-- **`ANSI(tmpl) % args`** -/
-theorem ansiMod_inert (tb : Tables) (tmpl : Text) (args : List Val) (items : List PItem)
-    (segs : List Seg)
+/-- **`ANSI(tmpl) % args`**, for a tuple of ANY values (strings, numbers, objects: each reaches `%`
+    as its escaped `str()`) under every conversion: either the call raises (`fillPercent` is an
+    error: a numeric conversion, `*`, a mapping key, an unknown conversion character, `%c` on more
+    than one character, too few / too many arguments), or — holes at ground state — the result is
+    the template's own fragments with the characters of each converted, padded value spliced in, in
+    the style current at its hole. -/
+theorem ansiMod_inert (tb : Tables) (pr : Char → Bool) (tmpl : Text) (args : List Val)
+    (items : List PItem) (segs : List Seg)
     (hscan : scanPercent tmpl = some (.ok items))
-    (hfill : fillPercent (args.map fun v => ansiEscape v.s) items = .ok segs)
+    (hfill : fillPercent pr (args.map fun v => ansiEscape v.s) items = .ok segs)
     (hg : HolesAtGround tb {} segs) :
-    ansiMod tb tmpl args = some (.ok (spliceRun tb {} segs).2) := by
-  have hv := fillPercent_valsInert (args.map fun v => ansiEscape v.s) items segs
+    ansiMod tb pr tmpl args = some (.ok (spliceRun tb {} segs).2) := by
+  have hv := fillPercent_valsInert pr (args.map fun v => ansiEscape v.s) items segs
     (by intro a ha; simp only [List.mem_map] at ha; obtain ⟨x, _, rfl⟩ := ha
         exact ansiEscape_inert x.s) hfill
   simp [ansiMod, pformat, hscan, renderPercent_eq_fill, hfill, Except.map, ansi,
     run_template_inert tb {} segs hg hv]
+
+/-- … and the other half of the dichotomy: when the rendering is an error, so is the call -/
+theorem ansiMod_raises (tb : Tables) (pr : Char → Bool) (tmpl : Text) (args : List Val)
+    (items : List PItem) (e : Err)
+    (hscan : scanPercent tmpl = some (.ok items))
+    (hfill : fillPercent pr (args.map fun v => ansiEscape v.s) items = .error e) :
+    ansiMod tb pr tmpl args = some (.error e) := by
+  simp [ansiMod, pformat, hscan, renderPercent_eq_fill, hfill, Except.map]
+
+/-- a numeric conversion, a `*` or a mapping key anywhere in the part of the template that is
+    reached makes the call raise: `%` never sees anything but escaped strings, so no conversion can
+    let a value through unescaped -/
+theorem fillPercent_typeErr (pr : Char → Bool) (args : List Text) (pre : List PItem)
+    (rest : List PItem) (segs : List Seg) :
+    fillPercent pr args (pre ++ .typeErr :: rest) ≠ .ok segs := by
+  induction pre generalizing args segs with
+  | nil => cases args <;> simp [fillPercent]
+  | cons it more ih =>
+    cases it with
+    | lit t =>
+      intro h
+      have : fillPercent pr args (.lit t :: (more ++ .typeErr :: rest)) =
+          match fillPercent pr args (more ++ .typeErr :: rest) with
+          | .ok r => .ok (.lit t :: r)
+          | .error e => .error e := by cases args <;> simp [fillPercent]
+      rw [List.cons_append, this] at h
+      cases hr : fillPercent pr args (more ++ .typeErr :: rest) with
+      | error e => simp [hr] at h
+      | ok r => exact ih args r hr
+    | hole sp =>
+      cases args with
+      | nil => simp [fillPercent]
+      | cons v vs =>
+        intro h
+        simp only [List.cons_append, fillPercent] at h
+        cases hcv : convArg pr sp.conv v with
+        | error e => simp [hcv] at h
+        | ok t =>
+          simp only [hcv] at h
+          cases hr : fillPercent pr vs (more ++ .typeErr :: rest) with
+          | error e => simp [hr] at h
+          | ok r => exact ih vs r hr
+    | typeErr => cases args <;> simp [fillPercent]
+    | badChar => cases args <;> simp [fillPercent]
+    | incomplete => cases args <;> simp [fillPercent]
 
 
 /-- **Plain strings.**  An input without ESC, 8-bit CSI and the zero-width markers is reproduced
@@ -609,8 +804,8 @@ example : ∃ items segs, scanFormat exTmpl = some (.ok items) ∧
 def exPTmpl : Text := [ESC, '[', '3', '1', 'm', 'a', '%', '-', '3', 's', 'b']
 
 example : ∃ items segs, scanPercent exPTmpl = some (.ok items) ∧
-    fillPercent ([[CSI8, '1']].map ansiEscape) items = .ok segs ∧ HolesAtGround exTb {} segs ∧
-    ansiMod exTb exPTmpl [{ s := [CSI8, '1'] }] = some (.ok
+    fillPercent exPr ([[CSI8, '1']].map ansiEscape) items = .ok segs ∧ HolesAtGround exTb {} segs ∧
+    ansiMod exTb exPr exPTmpl [{ s := [CSI8, '1'] }] = some (.ok
       [⟨"ansired".toList, ['a'], none⟩, ⟨"ansired".toList, ['?'], none⟩,
        ⟨"ansired".toList, ['1'], none⟩, ⟨"ansired".toList, [' '], none⟩,
        ⟨"ansired".toList, ['b'], none⟩]) :=
